@@ -541,6 +541,7 @@ impl Writer {
   // Receive new data samples from the DDS DataWriter
   pub fn process_writer_command(&mut self) {
     while let Ok(cc) = self.writer_command_receiver.try_recv() {
+      verif_yield!("writer:command:after-recv");
       match cc {
         WriterCommand::DDSData {
           ddsdata: dds_data,
